@@ -658,6 +658,17 @@ def parse_instr(toks, line):
     if op == 'freeze':
         ty = parse_type(p); v = parse_value(p, ty)
         return Instr(res, 'freeze', (ty, v), line)
+    if op == 'shufflevector':
+        t1 = parse_type(p); a = parse_value(p, t1); p.expect(','); t2 = parse_type(p); b = parse_value(p, t2); p.expect(',')
+        tm = parse_type(p); m = parse_value(p, tm)
+        return Instr(res, 'shufflevector', (t1, a, b, tm, m), line)
+    if op == 'insertelement':
+        t1 = parse_type(p); a = parse_value(p, t1); p.expect(','); te = parse_type(p); e = parse_value(p, te); p.expect(',')
+        ti = parse_type(p); i = parse_value(p, ti)
+        return Instr(res, 'insertelement', (t1, a, te, e, ti, i), line)
+    if op == 'extractelement':
+        t1 = parse_type(p); a = parse_value(p, t1); p.expect(','); ti = parse_type(p); i = parse_value(p, ti)
+        return Instr(res, 'extractelement', (t1, a, ti, i), line)
     if op == 'fence':
         return Instr(None, 'fence', (), line)
     if op == 'atomicrmw':
